@@ -4,8 +4,8 @@
     C04_rerun, C04_touch_md5.
 (K) same history harness as C03 (harness/statuslib.py), plus a sampled share of runs under `-n 2` (process) and
     `-n 2 -P thread`.
-(P) every `execute_task t` of the implementation in a run without --always-execute (and every `processed t` of
-    reset-dep) must have the Lean predicate `specUpToDate` false, evaluated by the driver's ghost machine from what
+(P) every `execute_task t` of the implementation in a run without --always-execute (reset-dep's `processed t` is
+    evaluated too, as information only) must have the Lean predicate `specUpToDate` false, evaluated by the driver's ghost machine from what
     the implementation was seen to execute -- never from the DB.
 """
 import statuslib
